@@ -66,6 +66,8 @@ package discovery
 //@ func makePRF$1
 //@   props C13 C07
 //@   requires h != nil
+//@   modifies heap:L!hash!data
+//@   ensures [tag-size] len(result) == 32
 //@   on-call h.Write(b):
 //@     assert [id-bytes] len(b) == 2 && b[0] == byte(x) && b[1] == byte(x >> 8)
 //@
